@@ -1404,7 +1404,14 @@ func toAbsoluteName(name, origin string) (absolute string, ok bool) {
 	if origin == "" {
 		return "", false
 	}
-	return appendOrigin(name, origin), true
+
+	// The relative part was valid by itself; with the origin appended the
+	// name must still be a domain name (at most 255 octets).
+	absolute = appendOrigin(name, origin)
+	if _, ok := IsDomainName(absolute); !ok {
+		return "", false
+	}
+	return absolute, true
 }
 
 func appendOrigin(name, origin string) string {
